@@ -106,18 +106,16 @@ class PageFeatureProcessor:
             and self._should_show_element(document.rtf_page.page_source, page)
         )
 
-        footnote_as_table_on_last = (
-            document.rtf_footnote
-            and document.rtf_footnote.text
-            and getattr(document.rtf_footnote, "as_table", True)
-            and document.rtf_page.page_footnote in ("last", "all")
+        # The last table row of this page is the source row when it is rendered as a
+        # table here, else the footnote row when rendered as a table here, else the
+        # last data row.
+        footnote_row_on_page = bool(
+            has_footnote_on_page and getattr(document.rtf_footnote, "as_table", True)
         )
-        source_as_table_on_last = (
-            document.rtf_source
-            and document.rtf_source.text
-            and getattr(document.rtf_source, "as_table", False)
-            and document.rtf_page.page_source in ("last", "all")
+        source_row_on_page = bool(
+            has_source_on_page and getattr(document.rtf_source, "as_table", False)
         )
+        component_row_on_page = footnote_row_on_page or source_row_on_page
 
         # 4. Bottom Border Logic
         if not page.is_last_page:
@@ -129,7 +127,7 @@ class PageFeatureProcessor:
                     else document.rtf_body.border_last
                 )
 
-                if not (has_footnote_on_page or has_source_on_page):
+                if not component_row_on_page:
                     # Apply to last data row
                     for col_idx in range(page_df_width):
                         page_attrs = self._apply_border_to_cell(
@@ -152,12 +150,7 @@ class PageFeatureProcessor:
         else:
             # Last page: use PAGE border_last
             if document.rtf_page.border_last:
-                # Only if this is truly the end (not just last page of a section,
-                # but for now we assume 1 section or last section)
-                # The original code checked `page_info["end_row"] == total_rows - 1`.
-                # Here we rely on `is_last_page` flag which comes from strategy.
-
-                if not (footnote_as_table_on_last or source_as_table_on_last):
+                if not component_row_on_page:
                     # Apply to last data row
                     for col_idx in range(page_df_width):
                         page_attrs = self._apply_border_to_cell(
